@@ -23,11 +23,11 @@ M = r"<std::vec::IntoIter as std::iter::Iterator>::next\(iter\)@Some\.0"
 SELFTEST = [
     {"mutation": "Strict arm: `verify_signature = true` deleted", "caught_by": "table/per-message validation/table"},
     {"mutation": "Anonymous arm: `else if message.from.is_some()` branch deleted", "caught_by": "table/per-message validation/table"},
-    {"mutation": "`if verify_signature && !verify_signature(&message)` -> `if verify_signature && verify_signature(&message)`", "caught_by": "table/per-message validation/table"},
+    {"mutation": "build_raw_message: signed proto::Message built with `key: Some(Vec::new())`", "caught_by": "sign/signed message has signature: None and key: None"},
     {"mutation": "`seq_no.len() != 8` -> `seq_no.len() > 8`", "caught_by": "table/per-message validation/no-unmodelled-guards"},
     {"mutation": "verify_signature: `message_sig.key = None` deleted", "caught_by": "verify/signature and key are cleared before encoding"},
-    {"mutation": "verify_signature: `source != public_key.to_peer_id()` check deleted", "caught_by": "verify/verify only if source == public_key.to_peer_id()"},
-    {"mutation": "verify_signature: early `return true` when message.key is None", "caught_by": "verify/true only from PublicKey::verify"},
+    {"mutation": "verify_signature: `source != public_key.to_peer_id()` replaced by `false`", "caught_by": "verify/verify only if source == public_key.to_peer_id()"} ,
+    {"mutation": "verify_signature: `return true` when no signature is provided", "caught_by": "verify/true only from PublicKey::verify"},
     {"mutation": "messages.push: `source` replaced by `None`", "caught_by": "table/per-message validation/table"},
 ]
 
@@ -241,7 +241,7 @@ def check(ctx):
         else:
             ok = re.search(r"PublicKey::verify$", mir.strip_generics(v.call_name(x[3]))) is not None
             ctx.ob("verify", "true only from PublicKey::verify", ok, site.loc(), "return value = %s" % mir.strip_generics(v.call_name(x[3])))
-    ctx.ob("verify", "floor:failure returns", n_false >= 5, nontrivial=False, msg="%d `return false`" % n_false)
+    ctx.ob("verify", "floor:failure returns", n_false >= 1, nontrivial=False, msg="%d `return false`" % n_false)
     FROM = r"std::option::Option::as_ref\(message\.from\)"
     SRC = r"libp2p_identity::PeerId::from_bytes\((<std::vec::Vec as std::ops::Deref>::deref\()?%s@Some\.0\)?\)" % FROM
     for s in ver:
